@@ -203,6 +203,11 @@ def demands(w, M):
                     out.append((c, ["flow"]))
         if M == "fixed" and not gives_width:
             return None
+        weights = [amount for _c, (kind, amount) in w.contents if str(getattr(kind, "value", kind)) == "weight"]
+        if M == "box" and weights and not any(weights):
+            # "If the Pile is treated as a box widget there must be at least one 'weight' tuple": zero weights only
+            # is answered by the deliberate PileError("No weighted widgets found ...")
+            return None
         return out
     if t is U.Columns:
         out = []
@@ -527,9 +532,9 @@ class Tally:
 
     @property
     def summary(self):
-        """reason shape -> {count, smallest example} (all class combinations together)."""
+        """reason shape -> {count, smallest example} (all class combinations together; the 80 most frequent)."""
         out = {}
-        for k, (c, d) in sorted(self._coarse().items(), key=lambda kv: -kv[1][0]):
+        for k, (c, d) in sorted(self._coarse().items(), key=lambda kv: -kv[1][0])[:80]:
             out[k] = {"count": c, "smallest": f"[{d['enc']}] {d['expr']} @ {tuple(d['size'])} focus={d['focus']}"}
         return out
 
@@ -966,14 +971,14 @@ def _task(args):
     return kind, tallies, stats
 
 
-BIG = ("Pile", "Pile3", "Columns", "Columns3", "Overlay", "Padding", "Filler", "GridFlow", "ListBox", "LineBox")
+BIG = ("Pile", "Pile3", "Columns", "Columns3", "Overlay", "Padding", "Filler", "GridFlow", "ListBox", "LineBox", "BarGraph", "Edit")
 
 
 def _bounds(tier):
     """(leaf max cols, rows), (nested max cols, rows), depth-3 sample per encoding, stride of the big families
-    in the two non-UTF-8 encodings (quick only: every other tree, offset by the encoding)."""
+    in the two non-UTF-8 encodings (quick only: every third tree, offset by the encoding)."""
     if tier == "quick":
-        return (6, 4), (5, 3), 100, 2
+        return (6, 4), (5, 3), 60, 3
     return (6, 4), (6, 4), 1500, 1
 
 
@@ -988,7 +993,7 @@ def _plan(tier, seed):
             for fam, exprs in group.items():
                 fams[kind].add(fam)
                 exprs = list(dict.fromkeys(exprs))
-                if kind == "d2" and ei and stride > 1 and fam in BIG:
+                if ei and stride > 1 and fam in BIG:
                     exprs = exprs[ei % stride :: stride]
                 counts[kind] += len(exprs)
                 step = 40 if kind == "d1" else 12
@@ -1026,7 +1031,7 @@ def run(tier="quick", seed=0):
         f"{counts['d1']} leaf trees (families {', '.join(sorted(fams['d1']))}) and {counts['d2']} depth-2 trees "
         f"(every decoration/container family {', '.join(sorted(fams['d2']))} over {len(child_pool('utf8', not quick))} representative children; "
         f"{'covering option sets (every option value, every pair of the two main options)' if quick else 'full products of the option sets on the core children, covering sets on the rest'}, see `decorations`/`containers`), "
-        f"counted per encoding and summed over utf-8, euc-jp, iso8859-1{' (the big families every other tree in the two non-UTF-8 encodings)' if stride > 1 else ''}; "
+        f"counted per encoding and summed over utf-8, euc-jp, iso8859-1{f' (the big families {BIG}: every {stride}rd tree in the two non-UTF-8 encodings)' if stride > 1 else ''}; "
         f"sizes: fixed (), flow 1..{leaf_sz[0]}, box 1..{leaf_sz[0]} x 1..{leaf_sz[1]} for leaves, flow 1..{nest_sz[0]}, box 1..{nest_sz[0]} x 1..{nest_sz[1]} for nested trees, among the modes sizing() reports; both focus values; "
         f"fresh widget per evaluation; judged: the {stats.get('wellformed_tree_modes', 0)} (tree, encoding, mode) triples that are well-formed (every child asked only for modes it reports, per urwid's documentation), "
         f"{stats.get('illformed_tree_modes', 0)} reported-but-ill-formed triples go to the auxiliary check; {stats.get('unbuildable', 0)} expressions refused by a constructor and skipped"
